@@ -104,6 +104,23 @@ int p_deliver_signals(void)
 	return n;
 }
 
+/* optional delivery point (entry of modelled system calls): a deliverable signal is
+ * taken now or left for a later point; waits deliver unconditionally */
+int p_opt_deliveries;
+void p_maybe_deliver(void)
+{
+	int t = sx_tid();
+
+	if (!p_opt_deliveries || t >= PMAXT)
+		return;
+	if (((p_pending | p_tpending[t]) & ~p_sigmask[t]) == 0)
+		return;
+	if (sx_choose(2) == 1) {
+		sx_cover("env.signal-delivered-at-syscall-boundary");
+		deliver_one(t);
+	}
+}
+
 void sxm_async_deliver(void)
 {
 	int t = sx_tid();
